@@ -41,6 +41,15 @@ namespace c14 {
          }
          if (not (it == s.end())) pos = false;
       }
+      // positions far beyond size() whose low 32 (or 31, 16, 8) bits are in range: every one of them is refused
+      bool wide = true;
+      for (std::size_t i = 0; i < n + 1; ++i)
+         for (std::size_t off : { std::size_t{1} << 32, std::size_t{5} << 32, std::size_t{1} << 31, std::size_t{1} << 63, std::size_t{1} << 16, std::size_t{1} << 8 }) {
+            if (off + i < n) continue;
+            try { (void) *s.position(off + i); wide = false; }
+            catch (const std::logic_error&) { }
+         }
+      os << "\n@wide_positions_refused=" << (wide ? 1 : 0);
       os << "\n@postfix=" << (fwd == fwd_post and bwd == bwd_post ? 1 : 0) << "\n@arrow=" << (arrow ? 1 : 0) << "\n@position=" << (pos ? 1 : 0);
       return os.str();
    }
